@@ -281,6 +281,33 @@ theorem C19_slots_to_new_total (o : OldSlot)
     | ints l' => exact ⟨_, rfl⟩
     | pairs l' => exact ⟨_, rfl⟩
 
+/-- **slots of a list are converted independently**: position `i` of the result is what slot `i`
+    converts to on its own - nothing is carried over from one slot to the next -/
+theorem C19_slots_list (os : List OldSlot) (ss : List Slot) (h : toNewList os = some ss) :
+    ss.length = os.length ∧ ∀ (i : Nat), (ss[i]?).map some = (os[i]?).map toNew := by
+  induction os generalizing ss with
+  | nil =>
+    simp only [toNewList, Option.some.injEq] at h
+    subst h
+    exact ⟨rfl, fun i => by simp⟩
+  | cons o os ih =>
+    unfold toNewList at h
+    cases h1 : toNew o with
+    | none => rw [h1] at h; simp at h
+    | some s =>
+      cases h2 : toNewList os with
+      | none => rw [h1, h2] at h; simp at h
+      | some rest =>
+        rw [h1, h2] at h
+        simp only [Option.some.injEq] at h
+        subst h
+        obtain ⟨a, b⟩ := ih rest h2
+        refine ⟨by simp [a], ?_⟩
+        intro i
+        cases i with
+        | zero => simp [h1]
+        | succ k => simpa using b k
+
 /-- FULL round trip `toNew (toOld s) = some s'` with the same indices is FALSE on
     the current code for every slot that holds a core or a GPU (finding
     C19-slots-old-list-form): `convert_slots_to_new` cannot read the per-rank
